@@ -129,6 +129,10 @@ def handle (st : St) (line : String) : St × String :=
         | some (s, bm) => (st, s!"{s} {bm}")
         | none => (st, "err ValueError")
       | none => (st, "err parse")
+  | ["KIND", a, b] =>
+      match Kind.ofString a, Kind.ofString b with
+      | some a, some b => (st, (promote a b).toString)
+      | _, _ => (st, "err parse")
   | ["SHORTLEX", n] =>
       match n.toNat? with
       | some n => (st, showNats (shortlexOrder n))
